@@ -5,12 +5,15 @@
    (2) every bond between residues follows a non-static edge of the stochastic atom graph, with its bond order, and enters a fresh residue
        at its first atom; every other bond is a static bond of the graph between two atoms of one residue;
    (3) the residues form a tree: each residue but the first hangs by exactly one bond from an atom of an earlier residue;
-   (4) one static completion adds exactly the atoms reached along static bonds, each once, and every static bond among them (Proofs/AGenP.v);
+   (4) whole residues: every residue instance consists of its first atom followed by the other atoms of the depth-first order over static
+       bonds from that atom, each once; on a graph whose static adjacency stays inside the node range that set is closed under static
+       adjacency (the depth-first search is complete: its fuel never runs out) -- all atoms of the token; and every static bond of the
+       graph between two atoms of the residue is present as a bond of that residue -- all internal bonds of the token;
    equal seeds give equal molecules: run_agen is a function of (graph, picks, draws) and of nothing else.
    PARTIAL: chemistry (sanitisation) is RDKit's and is checked on the implementation only; that the model IS the code is the
    correspondence check (nodes, instances, bonds with their kind, the sequence of decisions, on every run). *)
-From Coq Require Import List ZArith QArith Bool Arith.
-From GBS Require Import Model.PyStr Model.Num Model.Bond Model.Select Model.Gen Model.AGen Proofs.GenP Proofs.AGenP.
+From Coq Require Import List ZArith QArith Bool Arith Lia.
+From GBS Require Import Model.PyStr Model.Num Model.Bond Model.Select Model.Gen Model.AGen Proofs.GenP Proofs.AGenP Proofs.DfsP Proofs.AGenW.
 Import ListNotations.
 Open Scope nat_scope.
 
@@ -59,6 +62,25 @@ Proof.
 Qed.
 Print Assumptions C18_residues_form_a_tree.
 
+(* whole residues: atoms (in order) and internal bonds *)
+Theorem C18_residues_are_whole : forall G start pk tg st rs, run_agen G start pk tg = Done st rs ->
+  forall r g, nth_error (a_nodes st) r = Some g -> g_inst g = r ->
+  members r (cores st) = g_sn g :: others G (g_sn g) /\
+  (forall u v bt, In (u, v, bt) (sg_static G) -> In u (members r (cores st)) -> In v (members r (cores st)) ->
+     exists e, In e (a_edges st) /\ ge_link e = false /\ ge_bt e = bt /\
+               nth_error (cores st) (ge_a e) = Some (u, r) /\ nth_error (cores st) (ge_b e) = Some (v, r)).
+Proof. exact agen_whole. Qed.
+Print Assumptions C18_residues_are_whole.
+
+(* all atoms of the token, each once: the residue's atoms are closed under static adjacency *)
+Theorem C18_residue_has_all_atoms_of_its_token : forall G start pk tg st rs, run_agen G start pk tg = Done st rs ->
+  (forall u, u < List.length (sg_nodes G) -> Forall (fun v => v < List.length (sg_nodes G)) (sn_adj (snode_at G u))) ->
+  forall r g, nth_error (a_nodes st) r = Some g -> g_inst g = r -> g_sn g < List.length (sg_nodes G) ->
+  NoDup (members r (cores st)) /\
+  (forall u, In u (members r (cores st)) -> forall v, In v (sn_adj (snode_at G u)) -> In v (members r (cores st))).
+Proof. exact agen_residue_closed. Qed.
+Print Assumptions C18_residue_has_all_atoms_of_its_token.
+
 Theorem C18_function_of_graph_and_stream : forall G G' s s' pk tg, G = G' -> s = s' -> run_agen G s pk tg = run_agen G' s' pk tg.
 Proof. intros G G' s s' pk tg -> ->. reflexivity. Qed.
 Print Assumptions C18_function_of_graph_and_stream.
@@ -80,3 +102,5 @@ Example C18_example :
   | _ => False
   end.
 Proof. vm_compute. repeat split. Qed.
+Example C18_example_wf : forall u, u < List.length (sg_nodes ex_graph) -> Forall (fun v => v < List.length (sg_nodes ex_graph)) (sn_adj (snode_at ex_graph u)).
+Proof. intros u H. do 5 (destruct u as [|u]; [repeat constructor|]). cbn in H. lia. Qed.
